@@ -30,7 +30,7 @@ def layouts(tier):
 
 
 def prebuild_targets(tier):
-    return HARNESS.targets(layouts(tier), native=False) + TRANSFORM.targets(layouts(tier)[:1], native=False)
+    return HARNESS.targets(layouts(tier), native=False) + TRANSFORM.targets(layouts(tier)[:2] + ["Bundle:SE_2_3,SO3,SE2", "Bundle:SGal3,R3,SO2"], native=False)
 
 
 def run(rep, tier, seed):
@@ -58,7 +58,9 @@ def run(rep, tier, seed):
                 raise
             # product of the elements' branch structures exceeds the path cap: this layout's remaining scenarios are not run
             rep.not_run.append("C11/%s: %s" % (g, str(e)[-120:]))
-    for g in (ls[:2] if tier == "quick" else ls):
+    tls = (ls[:2] + ["Bundle:SE_2_3,SO3,SE2", "Bundle:SGal3,R3,SO2"]) if tier == "quick" else ls
+    terrs.update(TRANSFORM.build([g for g in tls if g not in ls[:2]], native=False) if tier == "quick" else {})
+    for g in tls:
         if g in terrs:
             lines = [l for l in terrs[g].output.splitlines() if "error" in l][:5]
             rep.fail("C11/%s/transform/instantiates" % g, "BUILD", "g++",
@@ -180,7 +182,22 @@ def check_layout(rep, g, seed):
 
 
 def check_transform(rep, g, seed):
-    TRANSFORM.prefetch(g, ["transform"])
+    TRANSFORM.prefetch(g, ["transform", "offsets"])
+    # the offset tables of this layout (cheap; layouts with 5x5 elements in a non-last position are in the quick tier for this reason)
+    for path in TRANSFORM.paths(g, "offsets"):
+        if path.thrown:
+            continue
+        c = ctx_for(rep, "C11/%s/offsets(transform harness)[%s]" % (g, path.script), path, g, [("x", "G"), ("t", "T")], seed=seed)
+        sp = c.spec
+        k = path.ints
+        ro, do = sp.offsets("rep"), sp.offsets("dof")
+        bad = {}
+        for i, e in enumerate(sp.elems):
+            for nm, v in (("e%d_rep_off" % i, ro[i]), ("e%d_dof_off" % i, do[i])):
+                if k.get(nm) != v:
+                    bad[nm] = (k.get(nm), v)
+        nm = "C11/%s/offsets(transform harness)/table" % g
+        rep.ok(nm, "FRAME", "trace") if not bad else rep.fail(nm, "FRAME", "trace", {"got_vs_spec": bad}, {"failing_input_reproduced": True, "input": g})
     for path in TRANSFORM.paths(g, "transform"):
         c = ctx_for(rep, "C11/%s/transform[%s]" % (g, path.script), path, g, [("x", "G")], seed=seed)
         if c.feasible() == "no":
